@@ -42,13 +42,17 @@ type zvC24Obs struct {
 	// fourth connection arrives (it must get Established: the peer can come back)
 	laterRan, thirdClosed, thirdCease, thirdEstablished, fourthEstablished bool
 	survivorLeft bool
+	// Established transitions logged when the local speaker entered the Write of a Cease NOTIFICATION on a connection
+	// (-1: no such Write). collisionHandling runs before that Write and reads the other FSM's state, which is stored
+	// after the transition is logged: 0 here means the other connection was not Established when the tie was broken
+	estAtCeaseWrite map[string]int
 	loserCeasedWhileOtherEstablished bool // a connection was ceased straight from OpenSent while the other was already Established (RFC 4271 6.8 last paragraph: the Established one wins whatever the identifiers)
 }
 
 func zvC24Explore(r *vh.Run, c zvC24Case, only []int) {
 	var obs zvC24Obs
 	body := func() {
-		obs = zvC24Obs{ceaseOn: map[string]bool{}, closed: map[string]bool{}}
+		obs = zvC24Obs{ceaseOn: map[string]bool{}, closed: map[string]bool{}, estAtCeaseWrite: map[string]int{"dial": -1, "accept": -1}}
 		vsched.SetExploring(false)
 		w := zvNewWorld()
 		o := zvPeerOpts{Addr: 9, Hold: 90 * time.Second, IBGP: c.IBGP}
@@ -94,6 +98,16 @@ func zvC24Explore(r *vh.Run, c zvC24Case, only []int) {
 		} else {
 			c1 = w.activeConnect()
 			c2 = w.incoming(o)
+		}
+		for _, zc := range []*zvConn{c1, c2} {
+			if zc != nil {
+				zc := zc
+				zc.onWrite = func(b []byte) {
+					if len(b) >= 21 && b[18] == 3 && b[19] == 6 && obs.estAtCeaseWrite[zc.name] < 0 {
+						obs.estAtCeaseWrite[zc.name] = obs.estLogged
+					}
+				}
+			}
 		}
 		if c1 == nil || c2 == nil {
 			panic("connections not set up")
@@ -253,7 +267,7 @@ func zvC24Explore(r *vh.Run, c zvC24Case, only []int) {
 		}
 		if len(obs.established) == 1 {
 			r.Count("one_established", 1)
-			if obs.established[0] != keep && obs.loserCeasedWhileOtherEstablished {
+			if obs.established[0] != keep && obs.loserCeasedWhileOtherEstablished && obs.estAtCeaseWrite[keep] != 0 {
 				// the later connection collided with an already Established one: keeping the Established one is what RFC 4271 6.8 says
 				r.Count("established_connection_kept", 1)
 				loser = map[string]string{"dial": "accept", "accept": "dial"}[obs.established[0]]
